@@ -115,3 +115,30 @@ CHECKS['C18'] = {
     'text': 'Memory safety is decided on the same finite spaces as the functional properties: every transform configuration, every call history with destruction of the object, every sponge length and Merkle shape (smallest shapes included), the Poseidon/cubic/inverse/conversion enumerations, the matrix kernels with exact heap coefficient blocks and the whole overload catalogue are run under AddressSanitizer (bounds, alloc/dealloc and new/delete mismatch) and non-recoverable UBSan; arrays are exact-size and fenced by PROT_NONE pages so that vector code and inline asm that the sanitizer does not instrument still fault on an out-of-extent access.',
     'note': 'Uninitialised reads are not detected (no MemorySanitizer-instrumented libstdc++/gmp offline). Leak checking is off. Shapes above the enumeration bounds are not run. A stack step measures the stack high-water mark of 74 transform / Merkle / sponge / batchInverse configurations at count c and 4c on a harness-owned stack and reports growth only after the extrapolated call really overruns an 8 MiB stack in a child process.',
 }
+
+# Dimensions added to the enumerations after the seeding rounds (DESIGN §6); appended to the level text of each check.
+ADDED = {
+    'C01': 'Also: every operation evaluated during static initialisation, inlined into leaf routines (14 live locals; local arrays of 4..16 elements) and mulScalar with literal scalars, over all ordered pairs of 14 boundary words; every power of two and its neighbours in the alphabet.',
+    'C02': 'Also: whole-register cases when a lane depends on its neighbours (cross-lane), the same kernels compiled inside an AVX-512 build and with -march=native, alias forms of every kernel, every power of two in the alphabet.',
+    'C11': 'Also: whole-register cases when a lane depends on its neighbours (cross-lane), alias forms of every kernel, every power of two in the alphabet.',
+    'C03': 'Also: non-power-of-two domains, prior calls on the object, sizes 2^13..2^16 (2^20), boundary words planted at pipeline stages, every thread-count argument 1..17 (34), the default team size of the environment, the caller inside its own parallel region, the other buffer alignment, the source donated as scratch, extend=true on a forward call, a copy-constructed object, column counts around mined constants, 18 460 obligations on BR().',
+    'C04': 'Also: the dimensions listed for C03.',
+    'C05': 'Also: the dimensions listed for C03 (planted stage = coefficients after the coset scaling).',
+    'C06': 'Also: alias forms of the hash wrappers.',
+    'C07': 'Also: lengths around mined constants, lengths up to 2^24+1 (differential), three alignments.',
+    'C08': 'Also: big shapes (rows to 2^15), teams around and above the processor count and every nThreads 1..128, batch sizes up to 2^63 and around 2^64/dim, the caller inside its own parallel region, rows/columns around mined constants.',
+    'C09': 'Also: arrays up to 65537 elements, batchInverse with the result at every 8-byte offset modulo 64, batchInverse under memory caps (allocation failure as an environment answer), pointer overloads and in-place forms.',
+    'C10': 'Also: operands floor(p/[q1;..;qk]) for every Euclid quotient word, every 3-call history over the inv/div forms, a call that ends the process is named by an exit handler.',
+    'C12': 'Also: three input contents per scenario (all different / all equal / all zero), team sweep 2..17 (34) on 32..256 (2048) rows, blow-up factors up to 32 on N in {1,2}, dense parcpy size sweep, re-entrancy battery and free-running ThreadSanitizer pass; both OpenMP stand-ins implement the remaining GOMP entry points.',
+    'C13': 'Also: alias forms, carry72 and straddle-2^64 operands, the coefficient array at every word offset modulo 64, the same kernels compiled inside an AVX-512 build and with -march=native.',
+    'C14': 'Also: alias forms, carry72 and straddle-2^64 operands, the coefficient array at every word offset modulo 64.',
+    'C15': 'Also: every numeral text of 1..3 (4) symbols in every radix with an own parser, long numerals with leading zeros / upper case, the array overload of toString, the conversions repeated under a digit-grouping global locale, alias forms of the reference overloads.',
+    'C16': 'Also: index-list shapes (all gap words), placements (0/8/16/24 mod 32), adjacent base pointers, constant sweep (2^k-1, 2^k, 2^k+1), huge strides on sparse reservations, a ThreadSanitizer re-entrancy step with shared index tables, the AVX2 overloads compiled inside an AVX-512 build and with -march=native.',
+    'C17': 'Also: the passes listed for C16; parcpy / parSetZero from inside a parallel region, on every size 0..18432 and with buffers backed by shared and file mappings.',
+    'C18': 'Also: a stack step (stack high-water at count c and 4c on a harness-owned stack; growth confirmed by a real overrun of an 8 MiB stack), an application-owned GMP allocator in the history harness.',
+    'C19': 'Also: unmerged exploration of all histories to depth 4 (5) over large calls and over eleven small calls including the public computeR, histories on objects constructed with extension 2, 4, 8; a replay that does not reproduce the canonical key is a violation.',
+    'C20': 'Also: the readers perform line splicing before comment removal; 47 operations per build including the compound operators.',
+}
+for _k, _v in ADDED.items():
+    if _k in CHECKS:
+        CHECKS[_k]['text'] = CHECKS[_k]['text'].rstrip() + ' ' + _v
